@@ -12,6 +12,7 @@ model = {
   "baud": [kbit, ...],             # BaudRate_<kbit>=1
   "comments": [line, ...] | None,  # [Comments]; None = no section
   "commissioning": {"node_id": n|None, "baudrate": kbit|None, "baud_hex": bool} | None,
+  "raw": {section: {key: text}},   # OPTIONAL: exact spelling of keys of the fixed sections
 }
 obj = {"kind": "var"|"domain"|"record"|"array"|"compact", "index": i, "name": s,
        "storage": s|None, "sp": int,
@@ -396,6 +397,14 @@ def render(model) -> str:
         fixed.append(_Section("DeviceComissioning", items, seed, "dcl"))
     for header, items in _object_lists(model):
         fixed.append(_Section(header, items, seed, header))
+    raw = model.get("raw")
+    if raw:
+        # optional: exact spelling of some keys of the fixed sections, {"DeviceInfo": {"BaudRate_250": "0x1"}}
+        # (only keys the writer emits anyway are respelled; absent -> nothing changes)
+        for sec in fixed:
+            over = raw.get(sec.header)
+            if over:
+                sec.items = [(k, over.get(k, val)) for k, val in sec.items]
 
     objs = [_object_sections(o, doc) for o in model["objects"]]
     layout = g.pick(3)
